@@ -4,7 +4,7 @@ from __future__ import annotations
 
 import ast
 
-from ..absint import App, Const, DictV, ListV, NodeV, ObjV, Sym
+from ..absint import App, Const, DictV, ListV, NodeV, ObjV, Sym, ClassV
 from ..repo import AnalysisError, body_walk, call_name, const_set, norm, short
 from ..schematic import MODULE_SCOPE, HandlerPolicy, run_handler, shape_stmt
 
@@ -42,6 +42,63 @@ def _atoms(c):
         if "config_entry" in s and "get" in s:
             allow = val
     return per, allow
+
+
+def expression_scope_rule(ctx, program, rid):
+    from ..flow import FlowPolicy, exits, run_flow
+    ev = ObjV("self", "AstEval")
+    seen = []
+
+    def aeval(i, n, a, k, c, o, seen=seen):
+        seen.append(c.heap.get("self.local_sym_table"))
+        return [(c, Const(True))]
+
+    pol = FlowPolicy(program, may_raise_all=False, cancel=False, summaries={"self.aeval": aeval}, globals_={"EvalStopFlow": ClassV("EvalStopFlow")})
+    funcs = DictV([(Const("print"), Sym(("script", "print"))), (Const("log.info"), Sym(("script", "log.info")))])
+    heap = {"self.local_sym_table": DictV([]), "self.ast": ObjV("tree", "Expression")}
+    out = run_flow(program, "eval.py::AstEval.set_local_sym_table", pol, args={"self": ev, "sym_table": funcs}, heap=heap)
+    rets = [c for k, c, d in exits(out) if k == "return"]
+    if len(rets) != 1:
+        raise AnalysisError("AstEval.set_local_sym_table: not a single normal exit")
+    heap = dict(rets[0].heap)
+    msgs = [DictV([(Const("trigger_type"), Const("event")), (Const("arg1"), Const(20))]), DictV([(Const("trigger_type"), Const("event")), (Const("arg2"), Const(5))])]
+    bad = None
+    for m in msgs:
+        out = run_flow(program, "eval.py::AstEval.eval", pol, args={"self": ev, "new_state_vars": m, "merge_local": Const(False)}, heap=heap)
+        rets = [c for k, c, d in exits(out) if k == "return"]
+        if len(rets) != 1:
+            bad = f"eval(): {len(rets)} normal exits"
+            break
+        heap = dict(rets[0].heap)
+    if bad is None and (len(seen) != 2 or not all(isinstance(x, DictV) for x in seen)):
+        bad = f"{len(seen)} evaluations seen"
+    if bad is None:
+        for idx, (scope, m) in enumerate(zip(seen, msgs)):
+            d = {k.v: v for k, v in scope.items if isinstance(k, Const)}
+            lost = [k for k in ("print", "log.info") if d.get(k) != funcs.get(Const(k))]
+            wrong = [k.v for k, v in m.items if d.get(k.v) != v]
+            stale = [k for k in ("arg1",) if idx == 1 and k in d]
+            if lost:
+                bad = f"message {idx + 1}: {lost} are no longer defined in the expression's scope (NameError instead of a line on the script's logger)"
+            elif wrong or stale:
+                bad = f"message {idx + 1}: variables {wrong} missing / stale {stale} in the expression's scope"
+    ctx.check(bad is None, rid, "eval.py::AstEval.eval", "installed functions and the message's variables in an expression's scope",
+              msg=f"AstEval.eval(vars) after install_ast_funcs: {bad}", key="expression scope", node=program.func("eval.py::AstEval.eval"), rel="eval.py")
+    # __builtins__ in the module globals (put there by exec of natively compiled code) is not readable as a name
+    npol = HandlerPolicy(program, opaque_methods=("call_func",))
+    npol.mod_consts["BUILTIN_EXCLUDE"] = Const(frozenset(const_set(program.module_const("eval.py", "BUILTIN_EXCLUDE")) or set()))
+    npol.plain_ast_name = True
+    for name, want_visible, at_module_level in (("__builtins__", False, False), ("__builtins__", False, True), ("__version__", True, False)):
+        h = dict(MODULE_SCOPE)
+        h["self.sym_table"] = DictV(((Const("$symtab"), Const("local")),) + (((Const(name), Sym(("globals", name))),) if at_module_level else ()))
+        h["self.local_sym_table"] = DictV(())
+        h["self.global_sym_table"] = DictV(((Const("$symtab"), Const("global")), (Const(name), Sym(("globals", name)))))
+        node = NodeV("Name", {"id": Const(name), "ctx": NodeV("Load", {}, "ctx")}, f"name:{name}")
+        out = run_handler(program, node, npol, method="ast_name", heap=h)
+        vis = any(c.env.get("$ret") == Sym(("globals", name)) for c in out.get("return"))
+        ctx.check(vis == want_visible, rid, "eval.py::AstEval.ast_name", f"`{name}` present in the module globals ({'read at module level' if at_module_level else 'read inside a function'})",
+                  msg=(f"name lookup returns the module-global `{name}`: after any lambda or @pyscript_compile definition `__builtins__['open']` hands out every excluded builtin"
+                       if vis else f"a script's own global `{name}` is no longer readable"), key=f"globals {name} {at_module_level}", node=program.func("eval.py::AstEval.ast_name"), rel="eval.py")
 
 
 def run(ctx):
@@ -121,6 +178,10 @@ def run(ctx):
              "(the evaluator is switched to the defining context object for the body)", floor=2)
     from .c11 import defining_context_rule
     defining_context_rule(ctx, program, "R17.7")
+    ctx.rule("R17.8", "print and log.* stay defined (bound to the script's logger) in trigger, guard and filter expressions: installing the evaluator's own functions and then "
+             "evaluating with the variables of a message leaves both visible - and nothing of an earlier message; `__builtins__`, which natively executed code leaves in the "
+             "module globals, is not a name scripts can read", floor=3)
+    expression_scope_rule(ctx, program, "R17.8")
     ctx.rule("R17.2", "importlib.import_module, sys.modules, exec and compile are used only at the reviewed sites", floor=3)
     allowed_sites = {
         "importlib.import_module": {"eval.py::AstEval.ast_import", "eval.py::AstEval.ast_importfrom"},
